@@ -272,6 +272,11 @@ class IMAPConnection:
 
     async def start_tls(self) -> None:
         ssl_context = self.config.ssl_context
+        # what the client sent behind STARTTLS without waiting for the
+        # handshake is plaintext, it must not be read as protected input
+        buffered = getattr(self.reader, '_buffer', None)
+        if buffered:
+            buffered.clear()
         await self.writer.start_tls(ssl_context)
         self._print('%s <->| %s', '<TLS handshake>')
 
